@@ -48,6 +48,73 @@ CHECKS = {
         note="Trusted: the brute-force linear-extension filter in mc/oracle.py.",
         design="4/C09",
     ),
+    "C02": dict(engine="E4 input enumerator + E2 reference", category="model_checking",
+        technique="bounded-exhaustive enumeration of all rooted labelled forests x data alphabet x grid sizes on the real Tree, against the literal sum and a sound interval recursion",
+        text="Every rooted labelled forest on <=4 (5) nodes x grid {2..5} x 1-2 samples x 6 data kinds, four build histories each, plus the direct->FFT switch at 999/1000/1001 grid points; "
+             "per entry: finite, inside a sound enclosure [L,U] that models the documented floor and per-convolution error, and equal to the exact value at 1e-9 wherever the enclosure is tight.",
+        note="Trusted: the O(G^2) log-domain recursion (validated in-run against the literal sum over all index assignments where G^K<=4000); error model constants (1e-12 relative, 1e-11 FFT absolute).", design="4/C02"),
+    "C03": dict(engine="E2 state space + reference", category="model_checking",
+        technique="exhaustive enumeration of all 427 trees over <=4 data points x construction histories x alpha x outlier priors, against closed-form FS-CRP densities; all-pairs identity check",
+        text="log_p, log_p_one and the fused variant of every tree (every outlier subset) built post-order, reversed, from_dict, relabelled, in EVERY compatible SMC data order and via "
+             "prune-regraft, vs the closed formulas with the literal-sum data term (1e-8 relative); ==/hash over all pairs incl. trees over different data subsets.",
+        note="Trusted: mc/oracle.py ref_log_joint written from the statement (root-count penalty includes its geometric normaliser).", design="4/C03"),
+    "C05": dict(engine="E4 input enumerator", category="model_checking",
+        technique="bounded-exhaustive enumeration of the read-count x copy-number x purity x error-rate x density x precision x grid cross-product through real input files, against scipy pmfs",
+        text="Every case of the cross-product in DESIGN 4/C05 through load_data vs binom/betabinom mixtures (1e-8 relative); normalisation over every alternate count for 4 depths; every partition of 4 mutations into clusters.",
+        note="Trusted: scipy.stats.binom / betabinom.", design="4/C05"),
+    "C06": dict(engine="E3 edit-history BFS", category="model_checking",
+        technique="explicit-state BFS over edit histories of the real Tree (canonical-state dedup, n=3 to the fixpoint) with a fresh-rebuild differential invariant in every state",
+        text="Every state reachable by the samplers' edit grammar for n=3 (closed: ~12k states, 260k transitions) and to depth 5-6 for n=4: per-clone log_p/log_r, root vector, log_p, log_p_one, fused variant equal a fresh build to 1e-9(1+depth).",
+        note="Canonical form covers every slot incl. sibling order and the graph library's vacated-position list; SMC placements only on SMC-built states (as the samplers compose them).", design="4/C06"),
+    "C07": dict(engine="E3 edit-history BFS + E1 explorer", category="model_checking",
+        technique="structural invariant evaluated in every state of the explicit-state edit BFS and on the result of every enumerated execution of every sampler move",
+        text="Well-formedness (one parent, reachable, unique names, inverse maps, payloads = data lists, each data point exactly once, data set conserved) in every BFS state and after EVERY execution of "
+             "burn-in SMC, particle Gibbs, subtree, data-point and prune-regraft moves from every start tree over <=3 data points.",
+        note="Reads the Tree's __slots__ directly.", design="4/C07"),
+    "C10": dict(engine="E4 input enumerator + E2 reference", category="model_checking",
+        technique="bounded-exhaustive enumeration of all forests x grids x data alphabet incl. forced ties, against a brute-force maximum over all feasible index assignments",
+        text="MAP CCF dictionaries (and the table columns) for every forest on <=4 (5) nodes: on-grid, feasible per sample, score equals the brute-force maximum, prevalence = ccf - children >= -1e-12.",
+        note="Ties: any maximiser accepted.", design="4/C10"),
+    "C11": dict(engine="E4 trace enumerator", category="model_checking",
+        technique="exhaustive enumeration of all traces up to 3 chains x 3 (4) entries over a tree/score alphabet x every chain completion order, through the real writer and summary commands, against a Counter",
+        text="Every small trace (two alphabets, relabelled copies, ties) x every split over chains x every insertion order: map (both modes) returns a maximiser; topology report rows/counts/scores/pointers/ranking/archive exact.",
+        note="MAP tree identified by decoding table + Newick.", design="4/C11"),
+    "C12": dict(engine="E4 trace enumerator", category="model_checking",
+        technique="exhaustive enumeration of every tree over <=3 data points (all outlier subsets) x clustered/unclustered x samples through all summary commands, outputs decoded and compared",
+        text="Every command output (table + Newick) decoded: each mutation once per sample, clone ids are Newick nodes or -1, cluster members share a clone, ccf/prevalence per clone feasible, optimal and in [0,1] or -1; commands complete incl. all-outlier trees and empty-clone consensus trees.",
+        note="Newick labels compared as strings.", design="4/C12"),
+    "C13": dict(engine="E1 EnumRNG (recording) + E2", category="model_checking",
+        technique="exhaustive enumeration of the (a,b,alpha,K,n) grid and of every auxiliary outcome with the law parameters of each draw recorded by the enumerating generator; all trees for the run-loop part",
+        text="Parameters of the Beta, Bernoulli and Gamma draws inside sample() equal Escobar-West for all 756 grid points x 98 auxiliary outcomes; update_concentration_value passes K, n (outliers excluded) and the new value is used by densities and proposals, for every tree over <=4 data points.",
+        note="Continuous draws over a 7-quantile alphabet; invariance of the mixture is mathematics, side-checked by quadrature.", design="4/C13"),
+    "C14": dict(engine="E1 EnumRNG explorer + shadow execution", category="model_checking",
+        technique="enumeration of call histories (move / alpha-change / clear sequences) x random outcomes under EnumRNG with every memoised call shadowed by the wrapped original",
+        text="Every history up to length 2 (3) plus all X-change-X histories, with and without the run loop's clears: each of ~2M memoised calls equals recomputation at 1e-9 (arrays), proposal support/probabilities and cached new-clone trees.",
+        note="n=2 full enumeration, n=3 / length 3 deviation-bounded.", design="4/C14"),
+    "C15": dict(engine="E3 edit-history BFS + E1 explorer", category="model_checking",
+        technique="explicit-state BFS over edit histories with a serialisation bisimulation invariant; deviation-bounded exploration of the real chain driver under EnumRNG and a virtual clock",
+        text="In every BFS state dict / pickle / gzip-trace restore is equal on all promised attributes and every enabled edit agrees on original and restored tree; trace entries over the run-configuration grid restore, are complete, in order, and their recomputed log_p_one under the recorded alpha equals the recorded one.",
+        note="Trace part deviation-bounded (bound 0 x 4 policies, bound 1 subset).", design="4/C15"),
+    "C16": dict(engine="E4 multiset enumerator + E2", category="model_checking",
+        technique="exhaustive enumeration of multisets of trees x thresholds x weighting modes through the real consensus code, against support counting",
+        text="1.6M (quick) cases: all multisets of <=3 trees over the 42 trees on 3 data points, <=4 (5) over the 26 without outliers, <=2 over all 243 trees on 4 data points, 3-tree multisets on 4 data points (orbit representatives quick / all 2.4M thorough), weighted sets; result is a well-formed tree whose clades are exactly the majority clades, uncovered points are outliers.",
+        note="Cases within 1e-9 of the threshold skipped; quick n=4 triples assume equivariance under renaming data indices.", design="4/C16"),
+    "C17": dict(engine="E4 input enumerator", category="model_checking",
+        technique="exhaustive enumeration of all 4^6 cell-state tables x column/separator/cluster variants x row orders through load_data, against a pure-Python filter and the C05 model",
+        text="Every table over 3 mutations x 2 samples with cells ok/missing/cn0/duplicated (minus the excluded families), all row permutations (<=5 rows) or 8 structured orders: same result for every order, kept set, numbering, sample order, defaults, values; major<minor rejected.",
+        note="Degenerate offsetting tables must be rejected or correctly filtered.", design="4/C17"),
+    "C18": dict(engine="E5 TLC pool model + subprocess replay", category="model_checking",
+        technique="TLC explicit-state exploration of a TLA+ model of the process pool; every terminal state (schedule class) replayed against the implementation in fresh processes; real spawn-pool runs under varied hash seed / affinity",
+        text="All 15 schedule classes for 3 chains (3 for 2): every (chain, warm-worker history) pair re-run in a fresh process through the real run() wiring and compared bit-exactly with the cold trace; every completion order through the real writer; real pool runs under 4 hash seeds x 2 affinities identical.",
+        note="Model bound to the code by replaying every class; classes cross-checked by an independent Python enumerator. Finite set of seeds/option sets.", design="4/C18"),
+    "C19": dict(engine="E1 EnumRNG explorer (deviation-bounded)", category="model_checking",
+        technique="deviation-bounded exploration of the real chain driver under EnumRNG + virtual clock over the full cross-product of CLI option values",
+        text="1356 option configurations (boundary values of every range): bound 0 under 4 default policies for all, bound 1 on a large subset (bound 2 for one data point, thorough): the run completes, every entry is a well-formed tree over all data with finite log_p_one.",
+        note="Not exhaustive over random outcomes of a whole run; completed bounds and caps reported in evidence.", design="4/C19"),
+    "C20": dict(engine="E5 in-memory device + fault injector", category="fault_enumeration",
+        technique="crash-point enumeration: every byte prefix of the real writer's stream through the three readers; ENOSPC at every write-call boundary",
+        text="For three traces, every prefix 0..len-1 (2870 crash points x 3 readers): reader raises or output is byte-identical to the complete file's; ENOSPC at each of the writer's write calls makes the run fail and leaves a proper prefix.",
+        note="gzip mtime fixed to 0 for a reproducible stream.", design="4/C20"),
 }
 
 NOT_YET = {}
